@@ -205,6 +205,49 @@ def x_lca(report):
         raise Unrecognised("lca_utils.find_lca", "body changed: " + got[:300])
     out["lineageTreeTwin"] = True
 
+    # ---- the SQLite twin: is downsample_scaled honoured by the queries?  are identifiers recorded? ----------
+    sq_src = read("src/sourmash/index/sqlite_index.py")
+    sqt = ast.parse(sq_src)
+    g_get = ast.get_source_segment(sq_src, _func(sqt, "get", "_SqliteIndexHashvalToIndex"))
+    g_iter = ast.get_source_segment(sq_src, _func(sqt, "__iter__", "_SqliteIndexHashvalToIndex"))
+    marks = ["if key > sqlidx._max_hash:" in g_get and "return dv" in g_get,
+             "if hashval <= max_hash:" in g_iter and "max_hash = self.sqlidx._max_hash" in g_iter]
+    try:
+        swl = ast.get_source_segment(sq_src, _func(sqt, "signatures_with_location", "LCA_SqliteDatabase"))
+        marks.append("ss.minhash.downsample(scaled=self.scaled)" in swl and "if ss.minhash.scaled < self.scaled:" in swl)
+        mh = ast.get_source_segment(sq_src, _func(sqt, "_max_hash", "LCA_SqliteDatabase"))
+        marks.append("return MinHash(n=0, ksize=self.ksize, scaled=self.scaled)._max_hash" in mh)
+    except Unrecognised:
+        marks += [False, False]
+    ds2 = ast.unparse(_func(sqt, "downsample_scaled", "LCA_SqliteDatabase"))
+    if "self.scaled = scaled" not in ds2 or "if scaled < self.scaled:" not in ds2:
+        raise Unrecognised("LCA_SqliteDatabase.downsample_scaled", "body changed")
+    if all(marks):
+        out["sqlDownHonoured"] = True
+    elif not any(marks):
+        # the unpatched shapes, exactly
+        if "x = [convert_hash_from(h) for (h,) in c]" not in g_get or "yield convert_hash_from(hashval)" not in g_iter:
+            raise Unrecognised("_SqliteIndexHashvalToIndex", "neither the known nor the patched shape")
+        out["sqlDownHonoured"] = False
+    else:
+        raise Unrecognised("LCA_SqliteDatabase.downsample_scaled", "only part of the queries honour self.scaled: " + str(marks))
+    bi = ast.get_source_segment(sq_src, _func(sqt, "_build_index", "LCA_SqliteDatabase"))
+    cr = ast.get_source_segment(sq_src, _func(sqt, "create", "LCA_SqliteDatabase"))
+    sv = ast.get_source_segment(db_src, _func(dbt, "save_to_sql", "LCA_Database"))
+    for frag in ('ident = name.split(" ")[0]', 'ident = name.split(".")[0]', "lineage = lineage_db.get(ident)",
+                 "ident_to_idx[ident] = idx", "if lineage:"):
+        if frag not in bi:
+            raise Unrecognised("LCA_SqliteDatabase._build_index", "fragment missing: " + frag)
+    marks = ["sourmash_lca_idents" in bi and 'ident = stored_idents[row["_id"]]' in bi,
+             "sourmash_lca_idents" in cr and "zip(sketch_ids, idents)" in cr,
+             "idents = [self._idx_to_ident[idx] for idx in self._signatures]" in sv and "idents=idents" in sv]
+    if all(marks):
+        out["sqlStoresIdents"] = True
+    elif not any(marks):
+        out["sqlStoresIdents"] = False
+    else:
+        raise Unrecognised("LCA_SqliteDatabase identifiers", "identifier table only partly wired: " + str(marks))
+
     report["outputs"]["lca"] = out
     return f"""
 /-- `lca_utils.taxlist()` -/
@@ -224,6 +267,10 @@ def lcaSigBatch : Nat := {out['lcaSigBatch']}
 def lcaSummKeepGe : Bool := {_bool(out['lcaSummKeepGe'])}
 def lcaClsKeepGe : Bool := {_bool(out['lcaClsKeepGe'])}
 def lcaClsMajorityGt : Bool := {_bool(out['lcaClsMajorityGt'])}
+/-- the queries of `LCA_SqliteDatabase` honour `downsample_scaled` (hashes above the threshold of `self.scaled` are
+    invisible, signatures are downsampled); `save_to_sql` records the identifiers and `_build_index` uses them -/
+def sqlDownHonoured : Bool := {_bool(out['sqlDownHonoured'])}
+def sqlStoresIdents : Bool := {_bool(out['sqlStoresIdents'])}
 /-- `LineageTree.add_lineage` / `.find_lca` are statement-for-statement `build_tree` / `find_lca` -/
 def lineageTreeTwin : Bool := {_bool(out['lineageTreeTwin'])}
 """
